@@ -47,7 +47,7 @@ def gen_cases(tier, seed):
                     if d + with_t > 3:
                         continue
                     cases.append(dict(kind="op", op=op, d=d, with_t=with_t, r=int(rng.integers(1, 5)),
-                                      B=int(rng.integers(2, 5)) if d + with_t < 3 else 2, real=bool(rep % 2),
+                                      B=int(rng.integers(1, 5)) if d + with_t < 3 else int(rng.integers(1, 3)), real=bool(rep % 2),
                                       seed=seed * 1000 + rep, cost=3.0))
         for dyn in DYNS:
             for k in range(2 if q else 4):
